@@ -33,6 +33,9 @@ type Engine struct {
 	globalNonNil   map[*ssa.Global]int        // 0 unknown, 1 yes, 2 no
 	globalInitType map[*ssa.Global]types.Type // dynamic type of the value stored by the initialiser, when known
 	globalInitLen  map[*ssa.Global]int        // length of a slice variable initialised from a constant string
+	globalInitInt  map[*ssa.Global]int64      // value of an integer variable initialised from a constant
+	globalFreshObj map[*ssa.Global]bool       // initialised with errors.New / fmt.Errorf: an object of its own
+	globalAlias    map[*ssa.Global]*ssa.Global // initialised with the value of another write-once package variable
 }
 
 const modPath = "mosn.io/mosn"
@@ -479,6 +482,9 @@ func (e *Engine) initNonNil(g *ssa.Global) bool {
 		e.globalNonNil = map[*ssa.Global]int{}
 		e.globalInitType = map[*ssa.Global]types.Type{}
 		e.globalInitLen = map[*ssa.Global]int{}
+		e.globalInitInt = map[*ssa.Global]int64{}
+		e.globalFreshObj = map[*ssa.Global]bool{}
+		e.globalAlias = map[*ssa.Global]*ssa.Global{}
 	}
 	if v := e.globalNonNil[g]; v != 0 {
 		return v == 1
@@ -511,6 +517,7 @@ func (e *Engine) initNonNil(g *ssa.Global) bool {
 				case *ssa.Call:
 					if f := v.Call.StaticCallee(); f != nil && (f.String() == "errors.New" || f.String() == "fmt.Errorf") {
 						nonNilInit = true
+						e.globalFreshObj[g] = true
 						if f.String() == "errors.New" {
 							if ep := e.prog.ImportedPackage("errors"); ep != nil {
 								if tn, ok := ep.Members["errorString"].(*ssa.Type); ok {
@@ -521,6 +528,29 @@ func (e *Engine) initNonNil(g *ssa.Global) bool {
 						continue
 					}
 					return false
+				case *ssa.UnOp:
+					// `var FAILED = protocol.FAILED`: an alias of another write-once package variable (that package is
+					// initialised first: it is imported)
+					g2, isG := v.X.(*ssa.Global)
+					if v.Op != token.MUL || !isG || g2 == g || g2.Pkg == g.Pkg || !e.initNonNil(g2) {
+						return false
+					}
+					nonNilInit = true
+					e.globalAlias[g] = g2
+				case *ssa.Const:
+					// an integer constant (`var minLen = len("GET")`): the variable keeps that value
+					if v.Value == nil || v.Value.Kind() != constant.Int {
+						return false
+					}
+					if _, isInt := intInfoOf(v.Type()); !isInt {
+						return false
+					}
+					n, exact := constant.Int64Val(v.Value)
+					if !exact {
+						return false
+					}
+					nonNilInit = true
+					e.globalInitInt[g] = n
 				case *ssa.MakeInterface:
 					nonNilInit = true
 					e.globalInitType[g] = v.X.Type()
@@ -1176,6 +1206,14 @@ func (vc *VC) constGlobal(g *ssa.Global) (Term, bool) {
 	if t, ok := vc.constGlobals[g]; ok {
 		return t, true
 	}
+	if g2 := vc.eng.globalAlias[g]; g2 != nil {
+		t, ok := vc.constGlobal(g2)
+		if ok {
+			vc.constGlobals[g] = t
+			vc.assumed["package variable "+g.Pkg.Pkg.Path()+"."+g.Name()+" is set once by package initialisation and keeps that value (checked syntactically: no other store in its package)"] = true
+		}
+		return t, ok
+	}
 	et := g.Type().Underlying().(*types.Pointer).Elem()
 	t := vc.q.Declare("cg$"+sanitize(g.Pkg.Pkg.Path()+"."+g.Name()), vc.sortOf(et))
 	st := &State{reach: True, mem: map[string]Term{}, alloc: IntLit(1)}
@@ -1189,11 +1227,24 @@ func (vc *VC) constGlobal(g *ssa.Global) (Term, bool) {
 		if dt := vc.eng.globalInitType[g]; dt != nil {
 			vc.q.Assert(Eq(ITyp(t), IntLit(int64(vc.eng.typeID(dt)))))
 		}
+		if vc.eng.globalFreshObj[g] {
+			// every errors.New / fmt.Errorf call of a package initialiser yields an object of its own: two such
+			// sentinel errors are never equal
+			for og, ot := range vc.constGlobals {
+				if vc.eng.globalFreshObj[og] && ot.Sort == SIface {
+					vc.q.Assert(Not(Eq(Root(IVal(t)), Root(IVal(ot)))))
+				}
+			}
+		}
 	case SPtr:
 		vc.q.Assert(Not(Eq(t, NilP)))
 	case SSlice:
 		if n, ok := vc.eng.globalInitLen[g]; ok {
 			vc.q.Assert(Eq(SLen(t), IntLit(int64(n))))
+		}
+	case SInt:
+		if n, ok := vc.eng.globalInitInt[g]; ok {
+			vc.q.Assert(Eq(t, IntLit(n)))
 		}
 	}
 	vc.constGlobals[g] = t
